@@ -611,12 +611,22 @@ func getInsertRows(insertStmt *ast.InsertStmt, pkIndexArray []int) ([][]interfac
 			} else if _, ok := node.(*ast.FuncCallExpr); ok {
 				row = append(row, ast.FuncCallExpr{})
 			} else {
+				_, isDefault := node.(*ast.DefaultExpr)
+				isPk := false
 				for _, index := range pkIndexArray {
 					if index == i {
-						return nil, fmt.Errorf("Unknown SQLExpr:%v", node)
+						isPk = true
 					}
 				}
-				row = append(row, ast.DefaultExpr{})
+				switch {
+				case isPk && isDefault:
+					// DEFAULT for a key column: the database generates the value, as for NULL
+					row = append(row, nil)
+				case isPk:
+					return nil, fmt.Errorf("Unknown SQLExpr:%v", node)
+				default:
+					row = append(row, ast.DefaultExpr{})
+				}
 			}
 		}
 		rows = append(rows, row)
